@@ -383,4 +383,16 @@ def traceOf (i : SInput) (s : CSt) : STrace :=
 
 def modelC (i : SInput) : STrace := traceOf i (finalC i)
 
+/-! ## histories: several `run()` calls on ONE suite object
+
+`run()` keeps nothing on the suite object: `make_tests` is called again, the queue, the semaphore, the table of threads and the
+per-worker results are locals of the call.  A history of runs - each with its own worker programs, fault plan and schedule, the
+earlier ones possibly aborted, their leftover workers finishing before or while the next run goes on - is therefore modelled as
+what it should be: every run by itself, on a fresh machine. -/
+
+abbrev HInput := List SInput
+abbrev HTrace := List STrace
+
+def modelH (h : HInput) : HTrace := h.map modelC
+
 end TTV.Conc
